@@ -29,7 +29,7 @@ fn main() {
             }
         }
         let mut rng = args.rng().fork(case ^ 0xC12);
-        let opts = GenOpts { max_strings: *rng.pick(&[0usize, 3, 8, 50]), max_string_len: *rng.pick(&[8usize, 40, 64, 128, 255]), max_pdos: *rng.pick(&[0usize, 4, 16, 64]), max_entries: *rng.pick(&[0usize, 3, 8, 40]), mailbox: true, nasty_strings: rng.bool(), max_sms: 8 };
+        let opts = GenOpts { max_strings: *rng.pick(&[0usize, 3, 8, 50]), max_string_len: *rng.pick(&[8usize, 40, 64, 128, 255]), max_pdos: *rng.pick(&[0usize, 4, 16, 64]), max_entries: *rng.pick(&[0usize, 3, 8, 40, 255]), mailbox: true, nasty_strings: rng.bool(), max_sms: 8 };
         let mut d = gen_desc(&mut rng, &opts);
         // well-formed: string indices inside the table
         let ns = d.strings.len() as u8;
